@@ -676,6 +676,9 @@ def run_c17(case):
         except NoSuchRecording:
             kept = False
         return {"kept": kept, "draws_used": cas._random.pos}
+    if kind == "s3hist":
+        import s3sample_driver
+        return s3sample_driver.run(case)
     # seeded real Random: decisions of a history, twice, and of a content/outcome-varied twin
     def decisions(runs, threaded=False):
         import threading
